@@ -41,7 +41,8 @@ REQUIRED_MONITORS = ["matrix-vs-dense-reference", "vector-vs-dense-reference", "
 REQUIRED_REACH = ["kwarg:updated-in-place", "kwarg:overrides-default", "basis:cell", "basis:cell-subset", "basis:facet-boundary", "basis:facet-subset",
                   "basis:facet-interior-side1", "basis:interior-side0", "basis:interior-side1", "trial!=test",
                   "kwarg:dofvector", "kwarg:discretefield", "kwarg:rawarray", "kwarg:scalar", "coef:n", "coef:h", "coef:x",
-                  "bare-parameter-integrands"]
+                  "bare-parameter-integrands", "trial-side0-test-side1", "oriented-facet-set", "kwarg:scalar-types",
+                  "empty-domain"]
 
 FIELDS = ("value", "grad", "div", "curl", "hess")
 
@@ -508,6 +509,143 @@ def bare_fields(ctx, k):
     ctx.nontrivial("bare", kind, facet)
 
 
+def jump_terms(ctx, k):
+    """Trial functions on one side of a set of interior facets, test functions on the other (the jump / penalty terms of
+    DG and Nitsche methods), equal or different elements; facet sets given as plain indices or as an oriented boundary
+    (`facets_around`).  Rows index test DOFs of the side-1 cells, columns trial DOFs of the side-0 cells."""
+    import skfem
+    rng = ctx.rng()
+    kind = ("tri", "quad", "tet", "hex")[k % 4]
+    names = {"tri": ("ElementTriP2", "ElementTriP1"), "quad": ("ElementQuad2", "ElementQuad1"),
+             "tet": ("ElementTetP1", "ElementTetP2"), "hex": ("ElementHex1", "ElementHex1")}[kind]
+    same_elem = bool((k // 4) % 2)
+    n1, n2 = names[0], (names[0] if same_elem else names[1])
+    mc = G.first_order(rng, kind)
+    mesh = mc.mesh
+    if mesh.t.shape[1] > 40:
+        S = np.sort(rng.choice(mesh.t.shape[1], size=40, replace=False))
+        p, t = G.clean(np.asarray(mesh.p), np.asarray(mesh.t)[:, S].astype(np.int64))
+        mesh = type(mesh)(p, t)
+    f2t = np.asarray(mesh.f2t)
+    itr = np.nonzero(f2t[1] != -1)[0]
+    if itr.size < 2:
+        raise Skip("no-interior-facets")
+    oriented = bool((k // 8) % 2)
+    e1, e2 = EL.by_name(n1).make(), EL.by_name(n2).make()
+    order = 2 * max(e1.maxdeg, e2.maxdeg)
+    order = min(order, {"tri": 12, "tet": 8}.get(kind, order))
+    if oriented:
+        # the facets around a cell set, interior ones only: side 0 is the cell the orientation names, side 1 the other
+        cs = np.sort(rng.choice(mesh.t.shape[1], size=max(1, mesh.t.shape[1] // 3), replace=False)).astype(np.int32)
+        ob = mesh.facets_around(cs, flip=bool(rng.integers(2)))
+        keep = f2t[1, np.asarray(ob)] != -1
+        if not keep.any():
+            raise Skip("no-interior-facet-around-the-cell-set")
+        from skfem.generic_utils import OrientedBoundary
+        F = OrientedBoundary(np.asarray(ob)[keep], np.asarray(ob.ori)[keep])
+        c0 = f2t[np.asarray(F.ori), np.asarray(F)]
+        c1 = f2t[1 - np.asarray(F.ori), np.asarray(F)]
+        ctx.reached("oriented-facet-set")
+    else:
+        F = rng.choice(itr, size=max(1, itr.size // 2), replace=False).astype(np.int32)
+        c0, c1 = f2t[0, F], f2t[1, F]
+    ub = skfem.InteriorFacetBasis(mesh, e1, facets=F, side=0, intorder=order)
+    vb = skfem.InteriorFacetBasis(mesh, e2, facets=F, side=1, quadrature=ub.quadrature)
+    ed_u = np.asarray(ub.dofs.element_dofs)[:, c0]
+    ed_v = np.asarray(vb.dofs.element_dofs)[:, c1]
+    tag = dict(kind=kind, trial=n1, test=n2, oriented=oriented, facets=int(np.asarray(F).size), mesh=type(mesh).__name__)
+    ctx.check("domain-cells", np.array_equal(np.asarray(ub.element_dofs), ed_u) and np.array_equal(np.asarray(vb.element_dofs), ed_v),
+              mech="interior-facet-basis-cells:" + ("oriented" if oriented else "plain"), **tag)
+    ops_u, ops_v = enumerate_ops(ub), enumerate_ops(vb)
+    terms = pick_terms(rng, ops_u, ops_v, True, False, False)
+    bil, lin, fun = make_integrands(terms, len(ub.basis[0]))
+    kwargs = {"coef_s": float(rng.integers(1, 9)) / 4}
+    A = skfem.BilinearForm(bil).assemble(ub, vb, **dict(kwargs))
+    w = dict(ub.default_parameters())
+    w.update(kwargs)
+    Aref, S = dense_reference(ub, vb, ed_u, ed_v, terms, w)
+    ctx.check("shape-test-by-trial", A.shape == (vb.N, ub.N), mech="matrix-shape", shape=A.shape, **tag)
+    ctx.close("matrix-vs-dense-reference", A.toarray(), Aref, rtol=1e-11, scale=float(S.max()) + 1e-300,
+              mech="trial-and-test-on-opposite-sides-of-interior-facets", terms=sig(terms), **tag)
+    u, v = rng.standard_normal(ub.N), rng.standard_normal(vb.N)
+    s_ = skfem.Functional(fun).assemble(ub, cu=ub.interpolate(u), cv=vb.interpolate(v), **dict(kwargs))
+    ctx.close("vTAu-equals-functional", v @ (A @ u), s_, rtol=1e-9, scale=float(np.abs(v) @ S @ np.abs(u)) + 1e-300,
+              mech="jump-term:vTAu", **tag)
+    ctx.reached("trial-side0-test-side1")
+    ctx.nontrivial("jump", kind, same_elem, oriented)
+
+
+def scalar_kinds(ctx, k):
+    """Scalars of every numeric type as extra parameters, integrands that return a constant, bases on an empty set of
+    cells / facets, an explicit quadrature=: all three form types see the same thing."""
+    import skfem
+    rng = ctx.rng()
+    kind = ("tri", "quad", "line", "tet")[k % 4]
+    ename = {"tri": "ElementTriP2", "quad": "ElementQuad1", "line": "ElementLineP2", "tet": "ElementTetP1"}[kind]
+    mc = G.first_order(rng, kind)
+    mesh = mc.mesh
+    basis = skfem.CellBasis(mesh, EL.by_name(ename).make())
+    dx = np.array(basis.dx)
+    M = skfem.BilinearForm(lambda u, v, w: u * v).assemble(basis)
+    bl = skfem.LinearForm(lambda v, w: 1.0 * v).assemble(basis)
+    meas = float(dx.sum())
+    tag = dict(kind=kind, elem=ename, mesh=type(mesh).__name__)
+    for nm, c in (("int", 3), ("bool", True), ("float32", np.float32(0.375)), ("int64", np.int64(-2)), ("float64", np.float64(1.25)),
+                  ("complex", 0.5 + 2j), ("complex128", np.complex128(1 - 1j))):
+        cplx = isinstance(c, (complex, np.complexfloating))
+        dt = complex if cplx else np.float64
+        cv = complex(c) if cplx else float(c)
+        A = skfem.BilinearForm(lambda u, v, w: w["c"] * u * v, dtype=dt).assemble(basis, c=c)
+        b = skfem.LinearForm(lambda v, w: w["c"] * v, dtype=dt).assemble(basis, c=c)
+        sF = skfem.Functional(lambda w: w["c"] + 0 * w.x[0], dtype=dt).assemble(basis, c=c)
+        rt = 1e-6 if nm == "float32" else 1e-12
+        ctx.close("matrix-vs-dense-reference", A.toarray(), cv * M.toarray(), rtol=rt, scale=abs(cv) * float(np.abs(M).max()),
+                  mech=f"scalar-parameter:{nm}:bilinear", **tag)
+        ctx.close("vector-vs-dense-reference", b, cv * bl, rtol=rt, scale=abs(cv) * float(np.abs(bl).max()), mech=f"scalar-parameter:{nm}:linear", **tag)
+        ctx.close("functional-vs-own-sum", sF, cv * meas, rtol=rt, scale=abs(cv) * meas, mech=f"scalar-parameter:{nm}:functional", **tag)
+    ctx.reached("kwarg:scalar-types")
+    # integrands returning a constant
+    for nm, fn, ref in (("float", lambda w: 1.0, meas), ("int", lambda w: 2, 2 * meas)):
+        try:
+            got = skfem.Functional(fn).assemble(basis)
+            ctx.close("functional-vs-own-sum", got, ref, rtol=1e-12, scale=abs(ref), mech=f"constant-integrand:{nm}", **tag)
+        except Exception as e:
+            ctx.check("functional-vs-own-sum", False, mech=f"constant-integrand-raises:{nm}", error=repr(e)[:200], **tag)
+    rho = rng.integers(1, 5, size=(dx.shape[0], 1)).astype(float)          # one number per cell, broadcast over the points
+    A = skfem.BilinearForm(lambda u, v, w: w["rho"] * u * v).assemble(basis, rho=rho)
+    Aref = np.zeros((basis.N, basis.N))
+    ed = np.asarray(basis.element_dofs)
+    for j in range(basis.Nbfun):
+        for i in range(basis.Nbfun):
+            np.add.at(Aref, (ed[i], ed[j]), (rho * np.array(basis.basis[j][0]) * np.array(basis.basis[i][0]) * dx).sum(axis=1))
+    ctx.close("matrix-vs-dense-reference", A.toarray(), Aref, rtol=1e-11, scale=float(np.abs(Aref).max()), mech="per-cell-coefficient-array", **tag)
+    # empty integration domains: zero matrix / vector / scalar of the right shape
+    emp = np.array([], dtype=np.int32)
+    for nm, be in (("cells", skfem.CellBasis(mesh, EL.by_name(ename).make(), elements=emp)),
+                   ("facets", skfem.FacetBasis(mesh, EL.by_name(ename).make(), facets=emp) if kind != "line" else None)):
+        if be is None:
+            continue
+        try:
+            A0 = skfem.BilinearForm(lambda u, v, w: u * v).assemble(be)
+            b0 = skfem.LinearForm(lambda v, w: 1.0 * v).assemble(be)
+            s0 = skfem.Functional(lambda w: 1.0 + 0 * w.x[0]).assemble(be)
+            ctx.check("matrix-vs-dense-reference", A0.shape == (basis.N, basis.N) and A0.nnz == 0 and not np.any(b0) and
+                      b0.shape == (basis.N,) and s0 == 0, mech=f"empty-domain:{nm}", shape=A0.shape, nnz=int(A0.nnz), **tag)
+        except Exception as e:
+            ctx.check("matrix-vs-dense-reference", False, mech=f"empty-domain-raises:{nm}", error=repr(e)[:200], **tag)
+    ctx.reached("empty-domain")
+    # an explicit rule instead of an order
+    from skfem.quadrature import get_quadrature
+    n = int(rng.integers(1, 7))
+    XW = get_quadrature(mesh.elem.refdom, n)
+    bq = skfem.CellBasis(mesh, EL.by_name(ename).make(), quadrature=XW)
+    bn = skfem.CellBasis(mesh, EL.by_name(ename).make(), intorder=n)
+    ctx.check("kwarg-spellings-bitwise", np.array_equal(np.asarray(bq.dx), np.asarray(bn.dx)) and
+              (skfem.BilinearForm(lambda u, v, w: u * v).assemble(bq) != skfem.BilinearForm(lambda u, v, w: u * v).assemble(bn)).nnz == 0,
+              mech="explicit-quadrature-differs-from-intorder", order=n, **tag)
+    ctx.nontrivial("scalar-kinds", kind)
+
+
 def fam(kind):
     return lambda ctx, k: one_case(ctx, k, kind)
 
@@ -521,3 +659,5 @@ FAMILIES = [Family("asm-" + kd, fam(kd), ncases(kd, m), ncases(kd, m), budget={"
             for kd, m in (("line", 1), ("tri", 2), ("quad", 2), ("tet", 1), ("hex", 1), ("wedge", 1))]
 FAMILIES.append(Family("trilinear", trilinear, 8, 160))
 FAMILIES.append(Family("bare-fields", bare_fields, 10, 200))
+FAMILIES.append(Family("jump-terms", jump_terms, 16, 480, budget={"quick": 40, "thorough": 400}))
+FAMILIES.append(Family("scalar-kinds", scalar_kinds, 4, 80))
